@@ -239,8 +239,13 @@ def rig_scenario(r, idx):
             policy=pol, pattern=pat, dflt=dflt,
             default=dict(kind="exit", code=code(dflt)),
             attempts={k + 1: dict(kind="exit", code=code(ok)) for k, ok in enumerate(pat)})
-    return dict(profile_retries=profile, force=force, bins={"ba": tests}, leak_timeout_ms=100,
-                threads=r.choice([1, 4, 8]))
+    sc = dict(profile_retries=profile, force=force, bins={"ba": tests}, leak_timeout_ms=100,
+              threads=r.choice([1, 4, 8]))
+    # the policy given per profile: under the default profile, a custom one, or the built-in default-miri
+    pn = r.choice(["default", "default", "ci", "default-miri"])
+    if pn != "default":
+        sc["profile_name"] = pn
+    return sc
 
 
 def directed_rig_scenarios():
@@ -262,6 +267,12 @@ def directed_rig_scenarios():
             "m6_profile_fixed": t(None, [False, True]),
             "m6_profile_never": t(None, [False, False, False, False, False]),
             "m6_pass": t(fixed(1, 50 * MS), [True])}}))
+    # the policy is given at the level of the selected profile: a custom profile and the built-in default-miri
+    for pn in ("ci", "default-miri"):
+        out.append(dict(profile_retries=fixed(2, 5 * MS), profile_name=pn, force=None, leak_timeout_ms=100, threads=4,
+                        bins={"ba": {"p_flaky": t(None, [False, True]),
+                                     "p_never": t(None, [False, False, False, False, False]),
+                                     "p_own": t(fixed(1, 0), [False, False, False])}}))
     return out
 
 
